@@ -1,5 +1,5 @@
 import Arimaa.Lemmas.Capture
-import Arimaa.Lemmas.Notation
+import Arimaa.Lemmas.SquareBits
 
 /-!
 Directions: the generated direction-indexed shifts against the specification's `nbr`.
